@@ -20,15 +20,15 @@ Theorem C17_revolve_complete : forall (N ram disk uf ub wd rd : Z) (k : nat), 1 
   exists o0 m ls, run_case (PRev RevConv.KRevolve N ram disk uf ub wd rd) (RevBridge4.rev_xparams N ram) (repeat Next k) = Ok (o0, m, ls) /\ mon_ok m /\ no_raise ls.
 Proof. exact RevolveRun.revolve_run. Qed.
 Print Assumptions C17_revolve_complete.
-Theorem C17_disk_revolve_complete : forall (N ram disk uf ub wd rd : Z) (k : nat), 1 <= N -> 1 <= ram ->
+Theorem C17_disk_revolve_complete : forall (N ram disk uf ub wd rd : Z) (k : nat), 1 <= N -> 0 <= ram -> (2 <= N -> 1 <= ram) ->
   exists o0 m ls, run_case (PRev RevConv.KDiskRevolve N ram disk uf ub wd rd) (DiskRun.disk_xparams N ram) (repeat Next k) = Ok (o0, m, ls) /\ no_raise ls /\ DiskBridge3.leftover_or_ok m.
 Proof. exact DiskRun.disk_revolve_run. Qed.
 Print Assumptions C17_disk_revolve_complete.
-Theorem C17_periodic_complete : forall (N ram disk uf ub wd rd : Z) (k : nat), 1 <= N -> 1 <= ram ->
+Theorem C17_periodic_complete : forall (N ram disk uf ub wd rd : Z) (k : nat), 1 <= N -> 0 <= ram -> (2 <= N -> 1 <= ram) ->
   exists o0 m ls, run_case (PRev RevConv.KPeriodic N ram disk uf ub wd rd) (DiskRun.disk_xparams N ram) (repeat Next k) = Ok (o0, m, ls) /\ no_raise ls /\ DiskBridge3.leftover_or_ok m.
 Proof. exact DiskRun.periodic_run. Qed.
 Print Assumptions C17_periodic_complete.
-Theorem C17_hrevolve_complete : forall (N ram disk uf ub wd rd : Z) (k : nat), 1 <= N -> 1 <= ram -> 0 <= disk ->
+Theorem C17_hrevolve_complete : forall (N ram disk uf ub wd rd : Z) (k : nat), 1 <= N -> 0 <= ram -> (2 <= N -> 1 <= ram) -> 0 <= disk ->
   exists o0 m ls, run_case (PRev RevConv.KHRevolve N ram disk uf ub wd rd) (DiskRun.disk_xparams N ram) (repeat Next k) = Ok (o0, m, ls) /\ no_raise ls /\ DiskBridge3.leftover_or_ok m.
 Proof. exact HRevTop.hrevolve_run_total. Qed.
 Print Assumptions C17_hrevolve_complete.
@@ -196,7 +196,8 @@ Import HRevTotal.
 Theorem C17_hrevolve_total :
   forall l ram disk wd rd uf ub : Z,
          0 <= l ->
-         1 <= ram ->
+         0 <= ram ->
+         (1 <= l -> 1 <= ram) ->
          0 <= disk -> exists L : list Ops.op, HRevSeq.hrevolve l ram disk wd rd uf ub = Actions.Ok L.
 Proof. exact (@HRevTotal.hrevolve_total). Qed.
 Print Assumptions C17_hrevolve_total.
@@ -208,7 +209,8 @@ Import HRevTotal.
 Theorem C17_hopt_table_total :
   forall lmax c0 c1 : Z,
          0 <= lmax ->
-         1 <= c0 ->
+         0 <= c0 ->
+         (2 <= lmax -> 1 <= c0) ->
          0 <= c1 ->
          forall w0 w1 r0 r1 ub uf : Z,
          exists T : HRevSeq.tabs,
@@ -217,14 +219,14 @@ Proof. exact (@HRevTotal.hopt_table_total). Qed.
 Print Assumptions C17_hopt_table_total.
 End M_C17_hopt_table_total.
 
-(* PARTIAL (Revolve family): max_n < 1 or no RAM unit for max_n > 1 is an exception at construction; that valid tuples always yield a complete stream is proved for Revolve, DiskRevolve, PeriodicDiskRevolve, HRevolve (C17_*_complete); PARTIAL only in that snapshots_in_ram = 0 with max_n = 1 is not covered for the disk classes (correspondence + oracle) *)
-Module M_C17_revolve_family_rejects_partial.
+(* Revolve family: max_n < 1 or no RAM unit for max_n > 1 is an exception at construction; that valid tuples always yield a complete stream is proved for Revolve, DiskRevolve, PeriodicDiskRevolve, HRevolve (C17_*_complete) *)
+Module M_C17_revolve_family_rejects.
 Import InvalidProofs.
-Theorem C17_revolve_family_rejects_partial :
+Theorem C17_revolve_family_rejects :
   forall (k : RevConv.rkind) (N ram disk uf ub wd rd : Z),
          N < 1 \/ ram < Z.min 1 (N - 1) ->
          exists e : Actions.exn, Sched.construct (Sched.PRev k N ram disk uf ub wd rd) = Actions.Err e.
 Proof. exact (@InvalidProofs.revolve_rejects). Qed.
-Print Assumptions C17_revolve_family_rejects_partial.
-End M_C17_revolve_family_rejects_partial.
+Print Assumptions C17_revolve_family_rejects.
+End M_C17_revolve_family_rejects.
 
